@@ -222,6 +222,8 @@ def attenuator_weight(idx):
         if isinstance(e, ast.BinOp):
             a, b = w(e.left, swap), w(e.right, swap)
             return {ast.Add: lambda: a + b, ast.Sub: lambda: a - b, ast.Mult: lambda: a * b, ast.Pow: lambda: a ** b, ast.Div: lambda: a / b}[type(e.op)]()
+        if isinstance(e, ast.Subscript) and isinstance(e.slice, ast.Constant) and e.slice.value == "theta":
+            return th      # the parameter read where it is used (a single-use local is substituted by the canonical form)
         if isinstance(e, ast.Call):
             f = norm(e.func).split(".")[-1]
             args = [w(a, swap) for a in e.args]
